@@ -1045,7 +1045,7 @@ theorem bSetItemWithOp_np {s : BState} {c k o v r : Val} {s' : BState} (hs : StN
               split at h
               · rename_i s4 hset
                 exact st_ret (pySetItem_np hs3 hk' hnv hset) hv' h
-              · cases h
+              · split at h <;> simp [U] at h
 
 theorem foldl_add_np (xs : List Val) : ∀ (acc : Val) (h : Heap) (v : Val) (h' : Heap), AllNP xs → NP acc → HeapNP h →
     xs.foldlM (fun (acc : Val × Heap) x => pyAdd acc.2 acc.1 x) (acc, h) = .ok (v, h') → NP v ∧ HeapNP h' := by
